@@ -1624,6 +1624,173 @@ def call_forms_grid(ctx, use_driver=True):
 
 
 # --------------------------------------------------------------------------------------
+# transitions that stay lazy (Tensor (x) free real Variable, evaluated at a point afterwards); Stack slices
+# --------------------------------------------------------------------------------------
+
+LAZY_ANCHORS = [(14, 7), (15, 7), (18, 9), (16, 7), (20, 5)]
+
+
+def check_lazy_trans(ctx, T, algo, k, srname, use_driver=True):
+    """trans = Tensor (x) Variable('w', Real) stays lazy through the whole algorithm (the Stack of segments in
+    mixed_… is not collapsed to a Tensor, Slice/Cat act on lazy terms); the result is evaluated at w afterwards and
+    must equal the fold of the per-step matrices (x) w."""
+    from funsor.domains import Real
+    rng = ctx.rng
+    sum_op, prod_op, wire, kind = SEMIRINGS[srname]
+    tol = 1e-9 if kind == "log" else 0.0
+    S = 2
+    inputs = [("time", T), ("p", S), ("c", S)]
+    rng.shuffle(inputs)
+    data = gen_data(rng, tuple(sz for _, sz in inputs), kind)
+    if prod_op is ops.mul:
+        wval, scaled = 2.0, data * 2.0
+    else:
+        wval = float(np.log(2.0)) if kind == "log" else 1.0
+        scaled = data + wval
+    w = Variable("w", Real)
+    base = Tensor(data, OrderedDict((n, Bint[sz]) for n, sz in inputs))
+    trans = prod_op(base, w)
+    tv = Variable("time", Bint[T])
+    ctx.count(f"lazy-trans:{algo}:T={T}")
+    wit = dict(T=T, algo=algo, k=k, sr=srname, inputs=inputs, data=data.tolist(), w=wval)
+    try:
+        with np.errstate(all="ignore"):
+            if algo == "seq":
+                r = sequential_sum_product(sum_op, prod_op, trans, tv, {"p": "c"})
+            elif algo == "naive":
+                r = naive_sequential_sum_product(sum_op, prod_op, trans, tv, {"p": "c"})
+            elif algo == "mixed":
+                r = mixed_sequential_sum_product(sum_op, prod_op, trans, tv, {"p": "c"}, num_segments=k)
+            else:
+                r = MarkovProduct(sum_op, prod_op, trans, tv, {"p": "c"})
+            v = r(w=wval)
+    except (AssertionError, NotImplementedError, ValueError, KeyError, TypeError, AttributeError) as e:
+        ctx.count(f"lazy-trans:declined-{type(e).__name__}")
+        ctx.case(nontrivial_key=None)
+        return
+    c = dict(T=T, sizes=[S], bsizes=[], sr=srname, inputs=inputs, data=scaled,
+             names={"time": "time", "prev": ["p"], "curr": ["c"], "batch": []})
+    mats = step_matrices(c, ())
+    if use_driver:
+        fk, fv = parse_mat(ctx.driver.ask([f"C10 fold {wire} {sx(mats)}"])[0])
+        if fk != "value":
+            ctx.infra_errors.append("driver declined a fold in check_lazy_trans")
+            return
+    else:
+        fv = py_fold(srname, mats)
+    try:
+        impl = impl_matrices(c, v)
+    except (KeyError, ValueError) as e:
+        ctx.fail("input", "C10.lazy-trans-inputs", witness=wit, got=str(e), expected="p, c")
+        return
+    if impl is None:
+        ctx.count("lazy-trans:still-lazy")
+        ctx.case(nontrivial_key=None)
+        return
+    if not mats_equal(impl[()], fv, tol_for(fv, tol, ctx)):
+        dom = "[" + ", ".join(f"({n!r}, Bint[{sz}])" for n, sz in inputs) + "]"
+        ctx.fail("input", f"C10.lazy-trans-{algo}-ne-fold", witness=wit, expected=str(fv), got=str(impl[()]),
+                 python=LAZYT_PY.format(algo=algo, T=T, k=k, data=repr(data.tolist()), inputs_dom=dom, w=wval,
+                                        sum_op=sum_op.__name__, prod_op=prod_op.__name__))
+        return
+    ctx.case(sample=dict(kind="lazy-trans", T=T, algo=algo, k=k, sr=srname),
+             nontrivial_key=("lazy-trans", T, algo, k, srname, tuple(inputs), data.tobytes()))
+
+
+LAZYT_PY = """
+# replay for C10: {algo} (num_segments {k}) on a transition that stays lazy (Tensor (x) Variable('w', Real)), duration {T}
+import numpy as np
+from collections import OrderedDict
+import funsor.ops as ops
+from funsor.domains import Bint, Real
+from funsor.tensor import Tensor
+from funsor.terms import Variable
+from funsor.sum_product import *
+inf = float("inf")
+data = np.array({data}, dtype=np.float64)
+base = Tensor(data, OrderedDict({inputs_dom}))
+tv = Variable("time", Bint[{T}]); step = {{"p": "c"}}
+def run(trans):
+    if "{algo}" == "seq": return sequential_sum_product(ops.{sum_op}, ops.{prod_op}, trans, tv, step)
+    if "{algo}" == "naive": return naive_sequential_sum_product(ops.{sum_op}, ops.{prod_op}, trans, tv, step)
+    if "{algo}" == "mixed": return mixed_sequential_sum_product(ops.{sum_op}, ops.{prod_op}, trans, tv, step, num_segments={k})
+    return MarkovProduct(ops.{sum_op}, ops.{prod_op}, trans, tv, step)
+r = run(ops.{prod_op}(base, Variable("w", Real)))(w={w})
+e = naive_sequential_sum_product(ops.{sum_op}, ops.{prod_op}, ops.{prod_op}(base, Tensor(np.array({w}))), tv, step)
+print(r); print(e)
+FAILS = not np.allclose(r.align(tuple(e.inputs)).data, e.data, equal_nan=True)
+print("FAILS =", FAILS)
+"""
+
+
+def lazy_trans_cases(ctx, use_driver=True):
+    names_sr = list(SEMIRINGS)
+    seed = int(ctx.seed) if str(ctx.seed).lstrip("-").isdigit() else 0
+    i = seed
+    if ctx.tier == "quick":
+        for j, (T, k) in enumerate(LAZY_ANCHORS):
+            for algo in (("mixed", "seq"), ("mixed", "naive"), ("mixed",), ("mixed",), ("mixed",))[j]:
+                check_lazy_trans(ctx, T, algo, k, names_sr[i % 5], use_driver)
+                i += 1
+        for T in (1, 3, 7, 13):
+            k = ctx.rng.randint(1, T)
+            check_lazy_trans(ctx, T, ["mixed", "markov", "mixed", "seq"][T % 4], k, names_sr[i % 5], use_driver)
+            i += 1
+    else:
+        for T in range(1, 21):
+            for k in range(1, T + 1):
+                check_lazy_trans(ctx, T, "mixed", k, names_sr[i % 5], use_driver)
+                i += 1
+            for algo in ("seq", "naive", "markov"):
+                check_lazy_trans(ctx, T, algo, None, names_sr[i % 5], use_driver)
+                i += 1
+
+
+def stack_slice_family(ctx):
+    """Stack.eager_subs, Slice branch, on stacks of n = 1..12 LAZY parts (the form mixed_… builds when the transition
+    stays lazy): every Slice(start, stop, step) with step 1..3, including stop = n-1 and stop = n; gate = Python list
+    slicing.  Parts are `Number(i) * w`, read back at w = 1."""
+    from funsor.domains import Real
+    from funsor.terms import Stack, Slice, Number
+    w = Variable("w", Real)
+    bad = None
+    n_checked = 0
+    for n in range(1, 13):
+        st = Stack("t", tuple(Number(float(i)) * w for i in range(n)))
+        for start in range(0, n):
+            for stop in range(start + 1, n + 1):
+                for step in (1, 2, 3):
+                    exp = [float(x) for x in list(range(n))[start:stop:step]]
+                    try:
+                        v = st(t=Slice("t", start, stop, step, n))(w=1.0)
+                        got = [float(v(t=j).data) for j in range(v.inputs["t"].size)] if "t" in v.inputs \
+                            else [float(v.data)]
+                    except (AssertionError, NotImplementedError, ValueError, KeyError, TypeError, AttributeError) as e:
+                        ctx.count(f"stack-slice:declined-{type(e).__name__}")
+                        continue
+                    n_checked += 1
+                    if got != exp and bad is None:
+                        bad = (n, start, stop, step, exp, got)
+    ctx.count("stack-slice:checked", n_checked)
+    if bad is not None:
+        n, start, stop, step, exp, got = bad
+        ctx.fail("input", "C10.stack-slice", witness=dict(n=n, start=start, stop=stop, step=step),
+                 expected=str(exp), got=str(got),
+                 python=f"""
+from funsor.domains import Real
+from funsor.terms import Stack, Slice, Number, Variable
+w = Variable("w", Real)
+st = Stack("t", tuple(Number(float(i)) * w for i in range({n})))
+v = st(t=Slice("t", {start}, {stop}, {step}, {n}))(w=1.0)
+got = [float(v(t=j).data) for j in range(v.inputs["t"].size)]
+print(got, list(range({n}))[{start}:{stop}:{step}])
+FAILS = got != [float(x) for x in list(range({n}))[{start}:{stop}:{step}]]
+""")
+        return
+    ctx.case(sample=dict(kind="stack-slice", checked=n_checked), nontrivial_key=("stack-slice", n_checked))
+
+
+# --------------------------------------------------------------------------------------
 # translator: the index expressions of sarkka_bilmes_product, as written in the source
 # --------------------------------------------------------------------------------------
 
@@ -1778,7 +1945,10 @@ def correspond(ctx):
                 "(time-dependent and not, eager/lazy/reflect+reinterpret) and MarkovProduct(...)(**renaming) "
                 "(fresh names, prev/curr swaps, batch renames); two state pairs of equal size in all 120 layouts of trans.inputs x "
                 "constructor call forms (time Variable/str, step dict in both orders/frozenset/tuple, eager/lazy) and seq/naive/"
-                "mixed, against the joint-state fold; lazily built MarkovProduct substituted WHILE LAZY (rename "
+                "mixed, against the joint-state fold; transitions that stay lazy (Tensor (x) free real Variable, read at a point "
+                "afterwards) through seq/naive/mixed/MarkovProduct incl. the anchors (duration, num_segments) = (14,7) (15,7) "
+                "(18,9) (16,7) (20,5) (thorough: durations 1..20 x every num_segments); Stack of 1..12 lazy parts under every "
+                "Slice(start, stop, step<=3) against Python list slicing; lazily built MarkovProduct substituted WHILE LAZY (rename "
                 "prev->curr / curr->prev / swap / fresh x Number or index-Tensor for the other step variable / the renamed-to "
                 "name / batch inputs, in one call and in two calls) then reinterpreted, against the fold with simultaneous-"
                 "substitution semantics; (logaddexp, add) chains and logaddexp reductions on integer "
@@ -1800,6 +1970,8 @@ def correspond(ctx):
     for _ in range(120 if quick else 2000):
         check_rename(ctx, gen_rename_case(ctx.rng, ctx.tier))
     call_forms_grid(ctx)
+    stack_slice_family(ctx)
+    lazy_trans_cases(ctx)
     lazy_subs_grid(ctx)
     for _ in range(60 if quick else 1500):
         check_lazy_subs(ctx, gen_lazy_subs(ctx.rng, ctx.tier))
@@ -1837,6 +2009,10 @@ def search(ctx, broken):
     if len([f for f in ctx.failures if f.witness is not None]) > before:
         return
     call_forms_grid(ctx, use_driver=False)
+    if len([f for f in ctx.failures if f.witness is not None]) > before:
+        return
+    stack_slice_family(ctx)
+    lazy_trans_cases(ctx, use_driver=False)
     if len([f for f in ctx.failures if f.witness is not None]) > before:
         return
     for _ in range(6):
